@@ -74,7 +74,6 @@ def run_variant(args) -> dict:
         fired_rules, errors = [], []
         for prop in m["props"]:
             if prop not in registry.PROPERTIES:
-                errors.append(f"{prop}: not registered")
                 continue
             try:
                 proj = P.Project(tmp)
